@@ -108,8 +108,10 @@ def run(R):
             else:
                 R.ok("C08.agg", "agg|order", "the tuple is recorded only after HAVING accepted the group", add.loc())
             # memory local to the call
-            local_new = PR.calls_matching(f, r"^sqlgrep::execution::helpers::DistinctValues::new$")
-            recv_self = any(o.kind == "arg" and o.arg == 1 for o in F.origins(f, add.args[0], depth=6, through_calls=False))
+            # the receiver of add() is a value created in this call (any constructor), not something reached through self
+            recv_os = F.origins(f, add.args[0], depth=6, through_calls=False)
+            local_new = [o.call for o in recv_os if o.kind == "call" and "DistinctValues" in f.local_ty(o.call.dest["l"])] if recv_os else []
+            recv_self = any(o.kind == "arg" and o.arg == 1 for o in recv_os)
             if local_new and not recv_self:
                 R.ok("C08.agg", "agg|local-memory", "the DISTINCT set is created inside execute_result", local_new[0].loc())
             else:
@@ -122,6 +124,22 @@ def run(R):
     cont = PR.calls_matching(af, r"^std::collections::hash::set::HashSet::contains$")
     ins = PR.calls_matching(af, r"^std::collections::hash::set::HashSet::insert$")
     okset = len(cont) == 1 and len(ins) == 1
+    # every path through add() consults the set of seen tuples, applied to the tuple handed in
+    consult = [c.bb for c in cont + ins]
+    if consult:
+        good, badb = PR.all_paths_hit(af, 0, consult)
+        if not good:
+            R.violation("C08.set", "add|bypass", "DistinctValues::add can return without consulting the set of all tuples seen so far (e.g. it "
+                                                 "remembers only the previous tuple): a tuple that recurs after other tuples is emitted again",
+                        [af.loc(badb)])
+            R.assume("tuple equality/hash semantics are those of Value (decided by C16)")
+            return
+        for c in cont + ins:
+            if not any(o.kind == "arg" and o.arg == 2 for o in F.origins(af, c.args[1], depth=8)):
+                R.violation("C08.set", "add|other-tuple", "%s in DistinctValues::add is not applied to the tuple handed in"
+                            % short(c.name).split("::")[-1], [c.loc()])
+                R.assume("tuple equality/hash semantics are those of Value (decided by C16)")
+                return
     if len(ins) == 1 and not cont:
         # equivalent spelling: `self.values.insert(value.clone())` returns true exactly for a new tuple
         t2 = (ins[0].func.get("res_targs") or ins[0].targs)[:1]
@@ -130,7 +148,7 @@ def run(R):
             R.violation("C08.set", "add|element-type",
                         "the DISTINCT set stores %s instead of the whole value tuple (Vec<Value>): different tuples can collide and a row is dropped"
                         % t2, [af.loc()])
-        elif ret_from_insert and not [n for n in names if not re.search(r"HashSet::insert$|Clone>::clone$", n)]:
+        elif ret_from_insert:
             R.ok("C08.set", "add", "insert(clone) of the whole tuple; returns insert's result", af.loc())
         else:
             R.violation("C08.set", "add|shape", "DistinctValues::add: unrecognised insert-only shape (callees %s)" % names, [af.loc()])
@@ -145,11 +163,8 @@ def run(R):
                         % (t2 or t1), [af.loc()])
             okset = False
     if okset:
-        extra = [n for n in names if not re.search(r"HashSet::(contains|insert)$|Clone>::clone$", n)]
         g = PR.bool_guard(af, cont[0])
-        if extra:
-            R.violation("C08.set", "add|extra-calls", "DistinctValues::add does more than contains/insert/clone: %s" % extra, [af.loc()])
-        elif g is None or not PR.dominated_by_edge(af, ins[0].bb, g[0], g[2]):
+        if g is None or not PR.dominated_by_edge(af, ins[0].bb, g[0], g[2]):
             R.violation("C08.set", "add|insert-unguarded", "insert is not on the `contains == false` edge", [ins[0].loc()])
         else:
             # returned constants
